@@ -51,5 +51,22 @@ Theorem C07_history_invariant_along_every_game :
 Proof. intros zt p0 ms Hl L. apply hist_rel_along_line; [apply hist_rel_init; exact Hl|exact L]. Qed.
 Print Assumptions C07_history_invariant_along_every_game.
 
+(* the same along EVERY legal game from EVERY legal position, with no hypothesis about the intermediate states (Engine/GameRefine.v) *)
+From CV Require Import Chess.ValidStep Chess.GameInv Engine.GameRefine.
+From Coq Require Import ZArith.
+Theorem C07_answers_along_every_legal_game :
+  forall (zt : zobrist) (p0 : position) (ms : list move),
+    valid_position p0 = true -> legal_line p0 ms = true -> clock p0 + Z.of_nat (length ms) < 255 ->
+    let s := play_rep zt (rep_of_position zt p0) ms in
+    match play_history [p0] ms with
+    | [] => False
+    | p :: earlier => p = play p0 ms /\ (no_collision (Kpos zt) p earlier ->
+        is_repeated s = occurred_before (p :: earlier) /\ threefold s = occurred_three_times (p :: earlier) /\ rule50 s = fifty_moves p)
+    end.
+Proof.
+  intros zt p0 ms Hv Hl Hn. destruct (valid_hyps p0 Hv) as [Hg [Hc Hf]]. exact (game_answers zt p0 ms Hg Hc Hf Hl Hn).
+Qed.
+Print Assumptions C07_answers_along_every_legal_game.
+
 (* C07_check_mate_material_partial: in_check / checkmate / stalemate / insufficient material as coded are not refined by a theorem;
    they are compared with the spec after every ply of the generated games. *)
